@@ -1,11 +1,14 @@
 (* C15 — path helpers obey their inverse and containment laws on all UTF-8 input.
    Statements are about the mirrors in Path/Helpers.v (tied to the code by the h-* streams; the laws
    themselves are also evaluated on the real code by the law_* streams).
-   Not yet proved here (exercised exhaustively by streams law_dir_base / law_first / law_last /
-   law_trim_protocol only): the splitting laws of dir/base, first/trim_first, last/trim_last and the
-   closed form of trim_protocol.  KF-C15-ext: see ext_split / ext_split_refuted. *)
+   The splitting laws hold on ARBITRARY strings (Path/SplitFacts.v: repeated separators, "." segments and
+   trailing separators included): trim_last / dir drop exactly the last component, trim_first exactly the
+   first, base / last / first name exactly that component, dir fails exactly on the empty path and the
+   root.  trim_protocol is given in closed form (Path/ProtocolFacts.v): it removes the text up to and
+   including the first "//" exactly when that text lower-cased is one of the four schemes, and returns
+   the path unchanged otherwise.  KF-C15-ext: see ext_split / ext_split_refuted. *)
 From Coq Require Import List NArith.
-From RV Require Import Base.Str Base.PathLex Path.Helpers Path.HelpersFacts.
+From RV Require Import Base.Str Base.PathLex Path.Helpers Path.HelpersFacts Path.SplitFacts Path.ProtocolFacts.
 
 Theorem C15_trim_prefix_inv : forall s p, trim_prefix (s ++ p) s = p.
 Proof. exact trim_prefix_inv. Qed.
@@ -78,3 +81,40 @@ Theorem C15_parse_paths_spec : forall v,
   List.concat (map (fun g => g ++ colon :: nil) (split_on colon v)) = v ++ colon :: nil.
 Proof. exact parse_paths_spec. Qed.
 Print Assumptions C15_parse_paths_spec.
+
+(* splitting off exactly one component, on arbitrary strings *)
+Theorem C15_trim_last_components : forall s, components (trim_last s) = removelast (components s).
+Proof. exact trim_last_components. Qed.
+Print Assumptions C15_trim_last_components.
+
+Theorem C15_trim_first_components : forall s, components (trim_first s) = tl (components s).
+Proof. exact trim_first_components. Qed.
+Print Assumptions C15_trim_first_components.
+
+Theorem C15_dir_base_split : forall p d, dir p = Ok d ->
+  exists c, components p = components d ++ (c :: nil) /\ base p = Ok (comp_str c) /\ c <> CRoot.
+Proof. exact dir_base_split. Qed.
+Print Assumptions C15_dir_base_split.
+
+Theorem C15_dir_fails : forall p, dir p = Err EParentNotFound <-> (components p = nil \/ components p = CRoot :: nil).
+Proof. exact dir_fails. Qed.
+Print Assumptions C15_dir_fails.
+
+Theorem C15_first_trim_first_split : forall p f, first p = Ok f ->
+  exists c, components p = c :: components (trim_first p) /\ f = comp_str c.
+Proof. exact first_trim_first_split. Qed.
+Print Assumptions C15_first_trim_first_split.
+
+Theorem C15_last_trim_last_split : forall p l, last p = Ok l ->
+  exists c, components p = components (trim_last p) ++ (c :: nil) /\ l = comp_str c.
+Proof. exact last_trim_last_split. Qed.
+Print Assumptions C15_last_trim_last_split.
+
+(* trim_protocol removes one leading scheme, case-insensitively, and nothing else *)
+Theorem C15_trim_protocol_closed : forall p,
+  trim_protocol p = match find p (slash :: slash :: nil) with
+                    | Some i => if is_scheme (map ascii_lower (firstn (i + 2) p)) then skipn (i + 2) p else p
+                    | None => p
+                    end.
+Proof. exact trim_protocol_closed. Qed.
+Print Assumptions C15_trim_protocol_closed.
